@@ -383,3 +383,98 @@ fn assertion_constructors_bounded() {
     }
     println!("NB-RESULT name=assertion_constructors_bounded cases={cases}");
 }
+
+// ------------------------------------------------------------------------------------------------
+// Multi-segment traces: an assertion is made against ONE segment, and its column must exist in that segment.
+// BoundaryConstraints::new must refuse an assertion whose column is at or beyond the width of its own segment
+// (whatever the width of the other segment), accept every other well-formed one, and enforce the accepted ones on
+// exactly their cells of their own segment.
+// Bound: trace lengths 8, 16; main and auxiliary widths 1..=3; every column 0..main + aux; six assertion shapes;
+// the probed assertion in the main or in the auxiliary list, next to one valid assertion of the other segment.
+#[test]
+fn segment_widths_bounded() {
+    std::panic::set_hook(Box::new(|_| {}));
+    let mut cases = 0u64;
+    let options = ProofOptions::new(32, 8, 0, FieldExtension::None, 4, 31);
+    for n in [8usize, 16] {
+        let g = BaseElement::get_root_of_unity(n.ilog2());
+        for main_w in 1..=3usize {
+            for aux_w in 1..=3usize {
+                for col in 0..main_w + aux_w {
+                    let shapes = [
+                        Spec { kind: "single", col, first: 0, stride: 0 },
+                        Spec { kind: "single", col, first: n - 1, stride: 0 },
+                        Spec { kind: "periodic", col, first: 1, stride: 4 },
+                        Spec { kind: "periodic", col, first: 0, stride: 2 },
+                        Spec { kind: "sequence", col, first: 3, stride: 4 },
+                        Spec { kind: "sequence", col, first: 0, stride: n / 2 },
+                    ];
+                    for spec in shapes.iter() {
+                        for in_aux in [false, true] {
+                            cases += 1;
+                            let ctx = AirContext::<BaseElement>::new_multi_segment(
+                                TraceInfo::new_multi_segment(main_w, aux_w, 2, n, vec![]),
+                                vec![TransitionConstraintDegree::new(1)],
+                                vec![TransitionConstraintDegree::new(1)],
+                                1,
+                                1,
+                                None,
+                                options.clone(),
+                            );
+                            // the companion assertion of the other segment: column 0, step 2 (valid in every configuration)
+                            let other = Assertion::single(0, 2, BaseElement::from(5u32));
+                            let (main, aux) = if in_aux { (vec![other], vec![spec.build(n)]) } else { (vec![spec.build(n)], vec![other]) };
+                            let coeffs = [BaseElement::from(7u32), BaseElement::from(11u32)];
+                            let built = catch_unwind(AssertUnwindSafe(|| BoundaryConstraints::<BaseElement>::new(&ctx, main, aux, &coeffs)));
+                            let width = if in_aux { aux_w } else { main_w };
+                            let what = || format!(
+                                "trace_len={n} main_width={main_w} aux_width={aux_w} assertion={spec:?} made against the {} segment",
+                                if in_aux { "auxiliary" } else { "main" }
+                            );
+                            let constraints = match (built, col >= width) {
+                                (Err(_), true) => continue,
+                                (Ok(_), true) => fail(format!("an assertion on a column its segment does not have is accepted: {}", what())),
+                                (Err(_), false) => fail(format!("a well-formed assertion is refused: {}", what())),
+                                (Ok(c), false) => c,
+                            };
+                            let (own, foreign) = if in_aux {
+                                (constraints.aux_constraints(), constraints.main_constraints())
+                            } else {
+                                (constraints.main_constraints(), constraints.aux_constraints())
+                            };
+                            // the probed assertion: exactly its cells, in its own segment's groups
+                            let mut enforced = BTreeSet::new();
+                            for group in own {
+                                for c in group.constraints() {
+                                    for step in 0..n {
+                                        if group.divisor().evaluate_at(g.exp((step as u64).into())) == BaseElement::ZERO {
+                                            enforced.insert((c.column(), step));
+                                        }
+                                    }
+                                }
+                            }
+                            if enforced != spec.cells(n) {
+                                fail(format!("enforced cells {enforced:?} differ from the asserted cells {:?}: {}", spec.cells(n), what()));
+                            }
+                            // the companion: column 0, step 2 of the other segment and nothing else
+                            let mut enforced = BTreeSet::new();
+                            for group in foreign {
+                                for c in group.constraints() {
+                                    for step in 0..n {
+                                        if group.divisor().evaluate_at(g.exp((step as u64).into())) == BaseElement::ZERO {
+                                            enforced.insert((c.column(), step));
+                                        }
+                                    }
+                                }
+                            }
+                            if enforced != BTreeSet::from([(0usize, 2usize)]) {
+                                fail(format!("the assertion of the other segment is enforced on {enforced:?} instead of (0, 2): {}", what()));
+                            }
+                        }
+                    }
+                }
+            }
+        }
+    }
+    println!("NB-RESULT name=segment_widths_bounded cases={cases}");
+}
